@@ -129,7 +129,7 @@ def run(tier, replay):
         if summary is None:
             raise V.Inconclusive("c10 gen produced no summary")
         c.add("law_checks_on_impl", summary["law_checks"])
-        V.stage_spec(d, ["BSON.tla", "Path.tla", "Query.tla", "QueryRef.tla", "TracePure.tla", "TracePure.cfg"])
+        V.stage_spec(d, V.PURE_SPECS + ["TracePure.tla", "TracePure.cfg"])
         r = V.tlc(d, "TracePure.tla", cfg="TracePure.cfg", timeout=1500)
         c.add_tlc(r)
         if r.violated:
